@@ -20,7 +20,7 @@ pub fn jobs(ctx: &Ctx) -> Vec<Job> {
     let mut jobs = Vec::new();
     let mut k = 0usize;
     let levels_per_version = 4;
-    let payloads = ctx.tier.pick(2, ctx.scale(50));
+    let payloads = ctx.tier.pick(4, ctx.scale(250));
     for v in 1..=40usize {
         for li in 0..levels_per_version {
             let level = (v + li * if levels_per_version == 2 { 2 } else { 1 }) % 4;
